@@ -11,6 +11,7 @@ mod genp;
 mod interp;
 mod lower;
 mod run;
+mod shapes;
 mod shrink;
 
 use std::collections::BTreeMap;
@@ -135,7 +136,7 @@ pub fn probes() -> Vec<(Program, Vec<Vec<Val>>)> {
         tag: "probe_loop_in_macro".into(),
         structs: vec![],
         enums: vec![],
-        fns: vec![FnDecl { params: vec![Param { name: 0, ty: u32t.clone(), by_ref: false }], ret: u32t, body }],
+        fns: vec![FnDecl { inline: None, params: vec![Param { name: 0, ty: u32t.clone(), by_ref: false }], ret: u32t, body }],
     };
     let vs = [3u32, 0, 7].iter().map(|k| vec![Val::Int(BigInt::from(*k))]).collect();
     vec![(p, vs)]
@@ -213,8 +214,9 @@ pub fn compile_programs(
                     }
                     if let Some(pos) = line.find("-->") {
                         let loc = &line[pos + 3..];
-                        let parts: Vec<&str> = loc.trim().rsplitn(3, ':').collect();
-                        if parts.len() == 3 {
+                        // `path:LINE:COL` or `path:LINE:COL-LINE:COL` (the path has no colon)
+                        let parts: Vec<&str> = loc.trim().split(':').collect();
+                        if parts.len() >= 3 {
                             if let Ok(ln) = parts[1].parse::<usize>() {
                                 for (k, (a, b)) in ranges.iter().enumerate() {
                                     if ln >= *a && ln <= *b && last_err.starts_with("error") {
@@ -256,6 +258,18 @@ fn flatten_args(args: &[Val]) -> Vec<num_bigint::BigInt> {
 fn c01_crate(seed: u64, idx: usize, n_progs: usize, n_vecs: usize, out: &Path) -> CrateRun {
     let mut stats = genp::Stats::default();
     let (progs, vectors, interp_stuck) = generate_crate(seed, idx, n_progs, n_vecs, &mut stats);
+    c01_run(idx, progs, vectors, interp_stuck, stats, out)
+}
+
+/// Compiles the given programs as one crate (base configuration) and runs every argument vector.
+fn c01_run(
+    idx: usize,
+    progs: Vec<Program>,
+    vectors: Vec<Vec<Vec<Val>>>,
+    interp_stuck: usize,
+    stats: genp::Stats,
+    out: &Path,
+) -> CrateRun {
     let mut res = CrateRun {
         idx,
         progs,
@@ -350,6 +364,20 @@ fn main_c01(out: &Path, tier: &str, seed: u64) {
     let mut runs: Vec<CrateRun> = vec![];
     let next = std::sync::atomic::AtomicUsize::new(0);
     let results = std::sync::Mutex::new(vec![]);
+    // the pass-shape family: enumerated programs, in crates of SHAPE_CRATE programs
+    const SHAPE_CRATE: usize = 60;
+    let shapes = if std::env::var("H01_NO_SHAPES").is_ok() { vec![] } else { shapes::all_shapes(tier) };
+    let mut shape_families: BTreeMap<&'static str, usize> = BTreeMap::new();
+    for sh in &shapes {
+        *shape_families.entry(sh.family).or_default() += 1;
+    }
+    let shape_chunks: Vec<(usize, Vec<Program>, Vec<Vec<Vec<Val>>>)> = shapes
+        .chunks(SHAPE_CRATE)
+        .enumerate()
+        .map(|(k, c)| (1000 + k, c.iter().map(|s| s.prog.clone()).collect(), c.iter().map(|s| s.vectors.clone()).collect()))
+        .collect();
+    let n_random = n_crates;
+    let n_crates = n_random + shape_chunks.len();
     std::thread::scope(|sc| {
         for _ in 0..threads.min(n_crates) {
             std::thread::Builder::new().stack_size(256 << 20).spawn_scoped(sc, || {
@@ -358,7 +386,18 @@ fn main_c01(out: &Path, tier: &str, seed: u64) {
                     if i >= n_crates {
                         break;
                     }
-                    let r = c01_crate(seed, i, n_progs, n_vecs, out);
+                    let r = if i < n_random {
+                        c01_crate(seed, i, n_progs, n_vecs, out)
+                    } else {
+                        let (idx, progs, vectors) = shape_chunks[i - n_random].clone();
+                        // a shape the reference interpreter cannot give a meaning to is a bug of the family
+                        let stuck = progs
+                            .iter()
+                            .zip(&vectors)
+                            .filter(|(p, vs)| vs.iter().any(|a| matches!(Interp::new(p).run(p.entry(), a), Outcome::Stuck(_))))
+                            .count();
+                        c01_run(idx, progs, vectors, stuck, genp::Stats::default(), out)
+                    };
                     results.lock().unwrap().push(r);
                 }
             })
@@ -502,6 +541,7 @@ fn main_c01(out: &Path, tier: &str, seed: u64) {
     std::fs::write(out.join("cases_index.json"), serde_json::to_string(&index).unwrap()).unwrap();
     let summary = serde_json::json!({
         "crates": runs.len(), "programs": n_programs, "cases": n_cases, "shards": n_shards,
+        "shape_programs": shapes.len(), "shape_families": shape_families,
         "distinct_nontrivial": nontrivial,
         "programs_panic_free_on_some_input": panic_free_some,
         "programs_panicking_on_some_input": panic_some,
